@@ -46,6 +46,8 @@ DOCSTRINGS = [
     "Summary.\n\nNote:\n    An admonition.\n\nDeprecated:\n    1.2: Do not use.\n\nOther Parameters:\n    z: Zed.\n",
     "Summary.\n\nParameters\n----------\na : int\n    First.\n\nReturns\n-------\nint\n    Value.\n\nSee Also\n--------\nother : thing\n",
     "Summary.\n\n:param a: First.\n:type a: int\n:returns: Value.\n:rtype: int\n:raises ValueError: Bad.\n",
+    "Summary.\n\nDeprecated\n----------\n1.2\n    Do not use.\n\nMethods\n-------\nf()\n    A method.\n\nAttributes\n----------\nx : int\n    Attr.\n\n"
+    "Warns\n-----\nUserWarning\n    Hm.\n\nExamples\n--------\n>>> 1\n1\n",
     "x",
     "Trailing spaces   \n\n  and odd indent\n",
 ]
